@@ -12,7 +12,7 @@ pub enum Ev {
     Lit(Seq<char>),
     With(WithClause), Distinct(SelectDistinct), SelExpr(SelectExpr), TRef(TableRef), IndexHints, TableSample, Join(JoinExpr),
     Cond(Seq<char>, ConditionHolder), Expr(SimpleExpr), Union(UnionType, SelectStatement), Order(OrderExpr), FieldOrder(OrderExpr), LimitOffset,
-    Lock(LockClause), Iden(DynIden), Window(WindowStatement),
+    Lock(LockClause), Iden(DynIden), Window(WindowStatement), DefaultKw,
     Output(Option<ReturningClause>), Returning(Option<ReturningClause>), JoinTy(JoinType), JoinOnEv(JoinOn), ValuesList(Vec<ValueTuple>), FuncName(FunctionCall), FuncArgs(FunctionCall), TRefIden(TableRef), Query(SubQueryStatement), WithOpts(WithClause), WithStart(WithClause), Cte(CommonTableExpression), CteList(WithClause), Materialization(CommonTableExpression), U32Value(u32), F64Text(f64), HintScope(IndexHintScope), FrameEv(Frame), OcKeywords, DoUpdateKw, Excluded(DynIden), OcTarget(Vec<OnConflictTarget>), OcAction(Option<OnConflictAction>), ColRef(ColumnRef), InsertKw(bool), DefaultValues(u32), OnConflict(Option<OnConflict>), Select(SelectStatement), UpdJoin, UpdFrom, UpdCond, UpdColumn(DynIden), UpdOrderBy, UpdLimit, DelOrderBy, DelLimit,
 }
 pub trait VWrite {
